@@ -118,6 +118,9 @@ func (e *Exec) call(caller *frame, pos token.Pos, fnv Value, args []Value) Value
 		if fn == nil {
 			panic(targetPanic{msg: "call of nil func value", pos: e.posStr(pos)})
 		}
+		if fn.fn == nil { // pre-computed result of a modelled interface method
+			return fn.env[0]
+		}
 		return e.callSSA(caller, pos, fn.fn, args, fn.env)
 	case *ssa.Builtin:
 		return e.callBuiltin(caller, pos, fn, args)
@@ -377,6 +380,16 @@ func (e *Exec) prepareCall(fr *frame, instr ssa.Instruction, c *ssa.CallCommon) 
 		recv := v.(IfaceV)
 		if recv.t == nil {
 			e.tpanic(fr, instr, "nil interface method call ("+c.Method.Name()+")")
+		}
+		if o, ok := recv.v.(OpaqueV); ok {
+			if rt, ok := o.x.(rtypeV); ok {
+				var margs []Value
+				for _, a := range c.Args {
+					margs = append(margs, e.get(fr, a))
+				}
+				res := e.rtypeMethod(rt.t, c.Method.Name(), margs)
+				return &Closure{fn: nil, env: []Value{res}}, nil
+			}
 		}
 		var f *ssa.Function
 		if sel := e.prog.MethodSets.MethodSet(recv.t).Lookup(c.Method.Pkg(), c.Method.Name()); sel != nil {
@@ -991,6 +1004,13 @@ func (e *Exec) equal(t types.Type, x, y Value) *Term {
 			r = ts.And(r, e.equal(at.Elem(), xv[i], yv[i]))
 		}
 		return r
+	case OpaqueV:
+		if a, ok := xv.x.(rtypeV); ok {
+			if b, ok := y.(OpaqueV).x.(rtypeV); ok {
+				return ts.Bool(types.Identical(a.t, b.t))
+			}
+		}
+		return ts.False
 	case *MapV:
 		return ts.Bool(xv == y.(*MapV)) // only m == nil is legal Go
 	case SliceV:
